@@ -107,9 +107,23 @@ class Model:
         self.generation = 0
         self.classes = set()
         self.next_null = 0
+        self.used_names = {False: [], True: []}   # name sets drawn so far (for 'reuse': same names in another directory)
         self.zero_shared = False   # after a reopen zero-length files/symlinks share one inode in the library
 
     # ------------------------------------------------------------------ helpers
+    def on_reopen(self):
+        """What a written image cannot carry: a boot file without any name is known from its El Torito
+        entry only, i.e. as `sector count` virtual sectors of 512 bytes."""
+        seen = set()
+        for e in (self.boot or {}).get('entries', []):
+            b = self.blobs.get(e['blob'])
+            if b is None or b.id in seen:
+                continue
+            seen.add(b.id)
+            if not b.names and e['load'] * 512 < b.length:
+                b.length = e['load'] * 512
+                self.classes.add('hidden-boot-file-cut-to-load-size')
+
     def avoided(self, fid):
         self.avoided_counts = getattr(self, 'avoided_counts', {})
         self.avoided_counts[fid] = self.avoided_counts.get(fid, 0) + 1
@@ -200,7 +214,19 @@ class Model:
             return True
         return depth(parent_path) + 1 <= 7
 
-    def _new_names(self, op, isdir):
+    def _new_names(self, op, isdir, parents=None):
+        nm = self._fresh_names(op, isdir)
+        r = op.get('reuse', 0)
+        pool = self.used_names[isdir]
+        if r and parents and pool and not op.get('xl'):
+            cand = pool[r % len(pool)]
+            if all(join(parents[ns], cand[ns]) not in self.t[ns] for ns in parents):
+                self.classes.add('same-name-other-dir')
+                return cand
+        pool.append(nm)
+        return nm
+
+    def _fresh_names(self, op, isdir):
         lvl = self.level
         sz, lead, salt, n = op.get('sz', 0), op.get('lead', 0), op.get('salt', 0), op['n']
         # A Rock Ridge (and XA) record must still fit 255 bytes: the library needs room for the
@@ -257,7 +283,7 @@ class Model:
             del parents['iso']
         if not parents:
             raise Skip('no namespace available')
-        nm = self._new_names(op, False)
+        nm = self._new_names(op, False, parents)
         length = op['len']
         if length > 0xffffffff and self.level < 3 and 'iso' in parents:
             raise Skip('large file below level 3')
@@ -303,7 +329,8 @@ class Model:
             del parents['iso']
         if not parents:
             raise Skip('no namespace available')
-        nm = self._new_names(op, True)
+        reloc_here = 'iso' in parents and self.rr and self.level < 4 and (depth(parents['iso']) + 1) % 8 == 0
+        nm = self._new_names(op, True, None if reloc_here else parents)      # relocated directories share one RR_MOVED
         paths = {ns: join(parents[ns], nm[ns]) for ns in parents}
         kw = {}
         mode = op.get('mode')
@@ -413,7 +440,16 @@ class Model:
             raise Skip('too deep')
         if b.length > 0xfffff800:
             raise Skip('link to multi-extent file')
-        nm = self._new_names(op, False)
+        nm = self._new_names(op, False, {tns: parents[tns]})
+        if op.get('reuse') and tns == ons and opath.rsplit('/', 1)[0] != parents[tns].rstrip('/'):
+            # the typical hard link: same name in another directory
+            base = opath.rsplit('/', 1)[1]
+            if join(parents[tns], base) not in self.t[tns]:
+                nm = dict(nm)
+                nm[tns] = base
+                if tns == 'iso' and self.rr:
+                    nm['rr'] = self.t['iso'][opath].get('rr') or nm['rr']
+                self.classes.add('link-same-name-other-dir')
         newpath = join(parents[tns], nm[tns])
         kw = {{'iso': 'iso_old_path', 'jol': 'joliet_old_path', 'udf': 'udf_old_path'}[ons]: opath,
               {'iso': 'iso_new_path', 'jol': 'joliet_new_path', 'udf': 'udf_new_path'}[tns]: newpath}
@@ -441,6 +477,11 @@ class Model:
         if b.boot_refs > 0 and 'hidden-bootfile' in self.avoid:
             raise Skip('avoid:hidden-bootfile')
         kw = {{'iso': 'iso_path', 'jol': 'joliet_path', 'udf': 'udf_path'}[ns]: path}
+        if b.boot_refs > 0 and len(b.names) == 1 and any(
+                e['blob'] == b.id and e['load'] * 512 < ((b.length + 2047) // 2048) * 2048 for e in (self.boot or {}).get('entries', [])):
+            # a boot file without any name survives in the image only as `load size` virtual sectors: how long it
+            # "is" after a reopen is not defined by the format, so this corner is left out (counted)
+            raise Skip('boot file with a short load size would lose its last name')
 
         def effect():
             last = len(b.names) == 1
@@ -488,7 +529,7 @@ class Model:
             raise Skip('iso parent missing')
         if (want & 4) and 'udf' not in parents:
             raise Skip('udf parent missing')
-        nm = self._new_names(op, False)
+        nm = self._new_names(op, False, parents)
         tgt = self.target(op.get('tgt', 0))
         kw = {}
         paths = {}
@@ -718,7 +759,16 @@ class Model:
         gid, parents = self._parents(op, NSBIT[tns])
         if tns not in parents or (tns == 'iso' and not self.iso_file_ok_depth(parents['iso'])):
             raise Skip('no parent')
-        nm = self._new_names(op, False)
+        nm = self._new_names(op, False, {tns: parents[tns]})
+        if op.get('reuse') and tns == ons and opath.rsplit('/', 1)[0] != parents[tns].rstrip('/'):
+            # the typical hard link: same name in another directory
+            base = opath.rsplit('/', 1)[1]
+            if join(parents[tns], base) not in self.t[tns]:
+                nm = dict(nm)
+                nm[tns] = base
+                if tns == 'iso' and self.rr:
+                    nm['rr'] = self.t['iso'][opath].get('rr') or nm['rr']
+                self.classes.add('link-same-name-other-dir')
         newpath = join(parents[tns], nm[tns])
         kw = {'boot_catalog_old': True, {'iso': 'iso_new_path', 'jol': 'joliet_new_path', 'udf': 'udf_new_path'}[tns]: newpath}
         if tns == 'iso' and self.rr:
